@@ -412,6 +412,8 @@ def correspondence(ctx, name, impl_cmd, model_cmd, cases, nontrivial=None, keep_
     t0 = time.time()
     impl, _, crashes = run_cases(ctx, impl_cmd, cases, 'impl_' + name, timeout)
     model, tags, mcr = run_cases(ctx, model_cmd, cases, 'model_' + name, timeout)
+    impl_raw = impl
+    oraw = bool(oracle is not None and getattr(oracle, 'raw', False))     # oracle.raw = True: the oracle sees the lines before canon()
     if canon:
         impl = {k: canon(v) for k, v in impl.items()}
         model = {k: canon(v) for k, v in model.items()}
@@ -440,7 +442,7 @@ def correspondence(ctx, name, impl_cmd, model_cmd, cases, nontrivial=None, keep_
     if oracle:
         for i in range(len(cases)):
             try:
-                r = oracle(cases[i], impl.get(i) or [])
+                r = oracle(cases[i], (impl_raw if oraw else impl).get(i) or [])
             except Exception as e:
                 r = 'oracle raised %r' % (e,)
             if r: oracle_fail[i] = r
@@ -458,13 +460,14 @@ def correspondence(ctx, name, impl_cmd, model_cmd, cases, nontrivial=None, keep_
             def fails0(c):
                 if valid and not valid(c): return False
                 a = run_one(ctx, impl_cmd, c, 'shr_i')
+                a_raw = a
                 if canon: a = canon(a)
                 if classify:
                     b = run_one(ctx, model_cmd, c, 'shr_m')
                     if canon: b = canon(b)
                     if classify(c, a, b): return False
                 if oracle and confirmed:
-                    return bool(oracle(c, a))
+                    return bool(oracle(c, a_raw if oraw else a))
                 b = run_one(ctx, model_cmd, c, 'shr_m')
                 if canon: b = canon(b)
                 return a != b
